@@ -300,13 +300,20 @@ class Flow:
         return ds[0] if len(ds) == 1 else None
 
     def resolve(self, expr: ast.AST, depth: int = 12) -> ast.AST:
-        """Follow plain aliases: Name -> its unique `assign` definition's value, repeatedly."""
-        while depth > 0 and isinstance(expr, ast.Name):
-            d = self.single_def(expr)
-            if d is None or d.kind not in ('assign', 'walrus') or d.value is None:
-                break
-            expr = d.value
+        """Follow plain aliases (Name -> its unique `assign` definition's value) and peel typing casts."""
+        while depth > 0:
             depth -= 1
+            if isinstance(expr, ast.Name):
+                d = self.single_def(expr)
+                if d is None or d.kind not in ('assign', 'walrus') or d.value is None:
+                    break
+                expr = d.value
+                continue
+            if isinstance(expr, ast.Call) and len(expr.args) == 2 and not expr.keywords \
+                    and (dotted(expr.func) or '').rsplit('.', 1)[-1] == 'cast':
+                expr = expr.args[1]
+                continue
+            break
         return expr
 
     def canon(self, expr: ast.AST, depth: int = 40, _stack: Optional[set] = None):
